@@ -385,6 +385,65 @@ def ev_short_prefixes(p, keep):
     return out
 
 
+_KEPT = {}
+
+
+def reset_kept():
+    _KEPT.clear()
+
+
+def _poison_specs():
+    import datetime
+    import decimal
+    return [decimal.Decimal('NaN'), 2 ** 64, '\ud800',
+            datetime.datetime(1969, 1, 1, tzinfo=datetime.timezone.utc)]
+
+
+def _clean_objects(p):
+    out = []
+    for i in range(4):
+        t = {'a': [1, {'in': 'x'}], 'd': {'n': [i]}, 'k': 'v'}
+        out.append((p.commands.Queue.Declare(queue='q%d' % i, arguments=t),
+                    t))
+        t2 = {'a': [1, {'in': 'x'}], 'd': {'n': [i]}, 'k': 'v'}
+        out.append((p.header.ContentHeader(0, i, p.commands.Basic.Properties(
+            app_id='a', headers=t2)), t2))
+    return out
+
+
+def ev_poisoned_marshal(p, keep):
+    """Objects whose nested tables hold one leaf that cannot be encoded (four
+    kinds of failure): the encodes are refused; the objects are kept for the
+    'repair' event."""
+    objs = _clean_objects(p)
+    out = []
+    for k, (o, t) in enumerate(objs):
+        bad = _poison_specs()[k % 4]
+        (t['a'][1] if k % 2 else t['d'])['zz-bad'] = bad
+        try:
+            p.frame.marshal(o, 1)
+            out.append('accepted')
+        except Exception as exc:  # noqa
+            out.append(type(exc).__name__)
+    _KEPT['poisoned'] = objs
+    return out
+
+
+def ev_repair_and_marshal(p, keep):
+    """The kept objects (or, when the history has none, identical objects
+    that never failed) are repaired IN PLACE and encoded: a refused encode
+    must not leave anything behind that concerns the same objects later."""
+    objs = _KEPT.pop('poisoned', None) or _clean_objects(p)
+    out = []
+    for k, (o, t) in enumerate(objs):
+        (t['a'][1] if k % 2 else t['d']).pop('zz-bad', None)
+        try:
+            out.append(p.frame.marshal(o, 1).hex())
+        except Exception as exc:  # noqa
+            out.append(['raised', type(exc).__name__, str(exc)[:80]])
+    return out
+
+
 def ev_mid_failures(p, keep):
     """Encodes refused and decodes failing in the middle of a (nested)
     container, after earlier members were handled."""
@@ -514,6 +573,9 @@ EVENTS = [
     ('marshal refused mid-way', ev_marshal_refused),
     ('marshal invalid after setattr', ev_marshal_invalid),
     ('refused / failed mid-container operations', ev_mid_failures),
+    ('marshal objects with one unencodable nested leaf (kept)',
+     ev_poisoned_marshal),
+    ('repair the kept objects in place and marshal', ev_repair_and_marshal),
     ('bare base classes and an application subclass', ev_bare_base_classes),
     ('deep copies and pickles of frames with table subclasses', ev_copies),
     # equal-but-distinct arguments (a memoised encoder conflates them)
